@@ -164,6 +164,9 @@ def default_profile():
     return p
 
 
+_CODE_CACHE = {}
+
+
 class Finder(importlib.abc.MetaPathFinder):
     def __init__(self, profile):
         self.profile = profile
@@ -188,15 +191,19 @@ class Finder(importlib.abc.MetaPathFinder):
                 module.__dict__.update(DISPATCH)
                 state = cfg["pre"](module) if cfg["pre"] else None
                 try:
-                    with open(origin, encoding="utf-8") as fh:
-                        source = fh.read()
-                    tree = ast.parse(source, origin)
-                    if cfg["rewrite"]:
-                        rw = Rewrite()
-                        tree = rw.visit(tree)
-                        ast.fix_missing_locations(tree)
-                        finder.profile.rewrites[name] = rw.count
-                    exec(compile(tree, origin, "exec"), module.__dict__)
+                    code = _CODE_CACHE.get(origin)
+                    if code is None:
+                        with open(origin, encoding="utf-8") as fh:
+                            source = fh.read()
+                        tree = ast.parse(source, origin)
+                        if cfg["rewrite"]:
+                            rw = Rewrite()
+                            tree = rw.visit(tree)
+                            ast.fix_missing_locations(tree)
+                            finder.profile.rewrites[name] = rw.count
+                        code = compile(tree, origin, "exec")
+                        _CODE_CACHE[origin] = code  # per process: the source is read once per run of a check
+                    exec(code, module.__dict__)
                 finally:
                     if cfg["post"]:
                         cfg["post"](module, state)
